@@ -436,11 +436,17 @@ class VF:
             for sp in pat['subs']:
                 if pat['variant'] in ('Some', 'Ok'):
                     pv = val
+                    if isinstance(pv, T.Tm) and T.is_app(pv, 'opt_get'):
+                        pv = index_term(pv[2][0], pv[2][1])       # the payload of v.get(i) is v[i]
                 else:
                     pv = T.app('payload:' + pat['variant'], self.to_term(val)) if not isinstance(val, Tup) else val
                 self.bind(sp['pat'], pv)
         elif k == 'Constant':
             pass
+        elif k == 'Array' and 'slice' not in pat and not pat.get('suffix'):
+            # fixed-size array pattern `[p0, p1, ..]`: element i of the scrutinee
+            for i, sp in enumerate(pat['prefix']):
+                self.bind(sp, self.project_val(val, ('idx', T.num(i))) if isinstance(val, Ref) else self.project(val, ('idx', T.num(i))))
         else:
             self.note('pattern:' + k)
 
@@ -495,8 +501,10 @@ class VF:
             return T.land(*cs)
         if k == 'Deref':
             return self.pat_cond(pat['sub'], val)
+        if k == 'Array' and 'slice' not in pat and not pat.get('suffix'):
+            return T.land(*[self.pat_cond(sp, self.project_val(val, ('idx', T.num(i))) if isinstance(val, Ref) else self.project(val, ('idx', T.num(i)))) for i, sp in enumerate(pat['prefix'])])
         if k == 'Variant':
-            return T.app('is:' + pat['variant'], self.to_term(val))
+            return variant_test(pat['variant'], self.to_term(val))
         if k == 'Constant':
             if pat.get('ty') == 'bool':
                 if '0x01' in pat['v'] or 'true' in pat['v']:
@@ -1159,6 +1167,12 @@ class VF:
             if T.is_app(nxt) and not nxt[0] == 'poly':
                 return None
             return T.add(init, T.app('sum', mk_comp(ls.n, ls.var, d)))
+        if T.is_app(nxt, 'upd') and nxt[2][0] is lh and nxt[2][1] is ls.var and ls.n is T.app('len', init):
+            # in-place element-wise map over the whole container: x[k] := f(x[k], k) for k in 0..len(x); iteration k reads only
+            # its own (still initial) element, so the exit value is the comprehension of f over the initial elements
+            v2 = T.subst(nxt[2][2], {index_term(lh, ls.var): index_term(init, ls.var)})
+            if free(v2):
+                return mk_comp(ls.n, ls.var, v2)
         if T.is_app(nxt, 'push') and nxt[2][0] == lh and free(nxt[2][1]):
             c = mk_comp(ls.n, ls.var, nxt[2][1])
             if init == T.app('array'):
@@ -1321,6 +1335,14 @@ class VF:
 
 
 # ---------------------------------------------------------------------- term helpers
+
+def variant_test(variant, t):
+    """`t` matches `variant`: bounds test for v.get(i), otherwise an uninterpreted is:<variant>(t)"""
+    if T.is_app(t, 'opt_get') and variant in ('Some', 'None'):
+        inb = T.cmp('lt', t[2][1], T.app('len', t[2][0]))
+        return inb if variant == 'Some' else T.lnot(inb)
+    return T.app('is:' + variant, t)
+
 
 def is_int_ty(ty):
     return ty in ('usize', 'isize', 'u8', 'u16', 'u32', 'u64', 'u128', 'i8', 'i16', 'i32', 'i64', 'i128')
